@@ -14,8 +14,9 @@ IMPL = "impl<'a> TimeZoneRef<'a> {"
 
 SPEC = r'''
 // trimmed model of tz_info::Error (only the variants these functions construct; payloads are static strings)
-enum Error { FindLocalTimeType(&'static str), OutOfRange(&'static str), TimeZone(&'static str) }
+enum Error { FindLocalTimeType(&'static str), OutOfRange(&'static str), TimeZone(&'static str), LocalTimeType(&'static str) }
 
+spec fn tzname_char(b: u8) -> bool { (48 <= b <= 57) || (65 <= b <= 90) || (97 <= b <= 122) || b == 43 || b == 45 }
 spec fn tz_wf(tr: Seq<Transition>, lt: Seq<LocalTimeType>) -> bool {
     lt.len() > 0
     && (forall|i: int| 0 <= i < tr.len() ==> (#[trigger] tr[i]).local_time_type_index < lt.len())
@@ -200,6 +201,18 @@ fn bsearch_transitions(s: &[Transition], key: i64) -> (r: Result<usize, usize>)
 { unimplemented!() }
 ''')
     u.trusted.append('std slice::last, slice::binary_search_by_key (documented contracts, stubs last_transition / bsearch_transitions)')
+    u.raw('impl TimeZoneName {')
+    u.prove(F, 'new', 'impl TimeZoneName {', cid='TimeZoneName::new',
+            loops=[("while i < len {", "            invariant len == input@.len(), 3 <= len <= 7, i <= len, bytes[0] as int == len,\n"
+                    "                forall|j: int| 0 <= j < i ==> tzname_char(#[trigger] input@[j]) && bytes[j + 1] == input@[j],\n            decreases len - i,")])
+    u.raw('}\nimpl LocalTimeType {')
+    u.prove(F, 'new', 'impl LocalTimeType {', cid='LocalTimeType::new')
+    u.prove(F, 'with_offset', 'impl LocalTimeType {', cid='LocalTimeType::with_offset')
+    u.prove(F, 'offset', 'impl LocalTimeType {', cid='LocalTimeType::offset')
+    u.raw('}\nimpl Transition {')
+    u.prove(F, 'new', 'impl Transition {', cid='Transition::new')
+    u.prove(F, 'unix_leap_time', 'impl Transition {', cid='Transition::unix_leap_time')
+    u.raw('}')
     u.raw('impl NaiveDateTime {')
     u.stub(FN, 'and_utc', 'impl NaiveDateTime {', cid='NaiveDateTime::and_utc')
     u.raw('}\nimpl<Tz: TimeZone> DateTime<Tz> {')
